@@ -75,7 +75,7 @@ def check_case(stats, case):
 
 def run_shard(k, seed, tier):
     stats = Stats()
-    n = 200 if tier == 'quick' else 3000
+    n = 500 if tier == 'quick' else 8000
     feats = ALL_FEATURES if k % 2 else ALL_FEATURES - {'faults', 'bigvals', 'terminal'}
     strat = programs(features=feats, size=dict(main_stmts=12, funcs=5))
 
